@@ -25,7 +25,9 @@ read as data, tf_pwa/cg.py as AST):
   E5-lookup       bounded model check of the path summaries: for every admissible
                   (j1,j2,m1,m2,J,M) with j1,j2 in the table's spin range (both
                   orderings, and spin 0) the summary's value equals the exact
-                  coefficient.
+                  coefficient; on the paths that consult the table also for every
+                  (J, M=m1+m2) outside the selection rules, where the miss handler
+                  has to produce the exact value 0.
 
 The path summaries are evaluated with the checker's own evaluator of a small
 expression language (fails closed on anything else); Python's eval/exec/compile
@@ -121,11 +123,11 @@ def cg_sq(j1, m1, j2, m2, J, M):
 
 
 def cg_exact(j1, m1, j2, m2, J, M):
+    """float value: the exact rational square, one sqrt, the exact sign"""
     sign, sq = cg_sq(j1, m1, j2, m2, J, M)
     if sign == 0:
         return 0.0
-    # one sqrt of an exact rational: integer square root of a scaled numerator keeps it correctly rounded
-    return sign * math.sqrt(sq.numerator) / math.sqrt(sq.denominator) if sq.denominator < 2**52 and sq.numerator < 2**52 else sign * math.sqrt(sq)
+    return sign * math.sqrt(sq)
 
 
 def _selftest():
@@ -265,13 +267,41 @@ def load_table(repo, rel):
     return t
 
 
-def _key_line_index(repo, rel):
-    """best-effort line numbers: leaf ordinal -> line of the leaf in the file (pretty-printed or not)"""
+def json_key_lines(repo, rel):
+    """key path -> line number in the JSON text (one pass, best effort; keys carry no escapes)"""
     try:
         with open(os.path.join(repo.root, rel), encoding="utf-8") as f:
-            return f.read()
+            text = f.read()
     except OSError:
-        return ""
+        return {}
+    out = {}
+    stack = []  # key under which each open object sits (None for the root)
+    pending = None
+    i, n, line = 0, len(text), 1
+    try:
+        while i < n:
+            c = text[i]
+            if c == "\n":
+                line += 1
+            elif c == '"':
+                j = text.index('"', i + 1)
+                s = text[i + 1:j]
+                k = j + 1
+                while k < n and text[k] in " \t\r\n":
+                    k += 1
+                if k < n and text[k] == ":":
+                    pending = s
+                    out[tuple(x for x in stack if x is not None) + (s,)] = line
+                i = j
+            elif c == "{":
+                stack.append(pending)
+                pending = None
+            elif c == "}":
+                stack.pop()
+            i += 1
+    except (ValueError, IndexError):
+        pass
+    return out
 
 
 def walk_leaves(t, path=()):
@@ -314,12 +344,11 @@ def pyval(fr):
 # ------------------------------------------------------------- part (a): table
 def check_table(repo, chk, rel):
     table = load_table(repo, rel)
-    text = _key_line_index(repo, rel)
     entries = {}  # (j1,j2,m1,m2,J,M) Fractions -> value
     blocks = {}
     nviol = 0
     bad_keys = []
-    line_of = _LeafLines(text)
+    line_of = json_key_lines(repo, rel)
     for path, val in walk_leaves(table):
         where = "%s::%s" % (rel, "cg_table")
         kp = "".join("[%s]" % json.dumps(k) for k in path)
@@ -355,7 +384,7 @@ def check_table(repo, chk, rel):
                     sg, sq = cg_sq(j1, m1, j2, m2, J, M)
                     msg = "stored %r, exact <%s %s %s %s|%s %s> = %s%ssqrt(%s) = %.17g, |delta| = %.3g" % (
                         val, j1, m1, j2, m2, J, M, "-" if sg < 0 else "", "" if sg else "0*", sq, exact, delta)
-                chk.violation("E5-cg", where, "cg_table" + kp, msg, file=rel, line=line_of.line(path))
+                chk.violation("E5-cg", where, "cg_table" + kp, msg, file=rel, line=line_of.get(tuple(path)))
     n = len(entries)
     for (j1, j2), b in sorted(blocks.items()):
         chk.out("  [E5-cg] block j1=%s j2=%s: %d entries (%d non-zero exact), %d bad, worst |delta| = %.2g" % (j1, j2, b["n"], b["nz"], b["bad"], b["worst"]))
@@ -391,7 +420,7 @@ def check_table(repo, chk, rel):
                 "entry is absent, so the lookup yields 0.0, but the exact coefficient is %.17g" % cg_exact(j1, m1, j2, m2, J, M),
                 file=rel, line=None,
             )
-    chk.out("  [E5-cg-complete] %d blocks complete, %d missing non-zero entries" % (len(blocks) - len({k[:12] for k in missing_total}) if not missing_total else len(blocks), len(missing_total)))
+    chk.out("  [E5-cg-complete] %d blocks, %d missing non-zero entries recorded" % (len(blocks), len(missing_total)))
 
     if bad_keys:
         for kp, k in bad_keys[:MAX_VIOL]:
@@ -409,55 +438,6 @@ def check_table(repo, chk, rel):
     chk.extra["cg_table_blocks"] = len(blocks)
     chk.extra["cg_table_worst_delta"] = max(b["worst"] for b in blocks.values())
     return table, entries, blocks, not bad_keys
-
-
-class _LeafLines:
-    """line number of a key path in the JSON text by a scan for the successive keys (best effort)"""
-
-    def __init__(self, text):
-        self.text = text
-
-    def line(self, path):
-        pos = 0
-        # walk the nesting: after locating key i, key i+1 is searched after it; sibling
-        # ambiguity is resolved by a tiny tokenizer that tracks depth
-        try:
-            return _json_key_line(self.text, path)
-        except Exception:
-            return None
-
-
-def _json_key_line(text, path):
-    depth = 0
-    stack = []  # keys of the currently open objects
-    i, n, line = 0, len(text), 1
-    pending_key = None
-    want = list(path)
-    while i < n:
-        c = text[i]
-        if c == "\n":
-            line += 1
-        elif c == '"':
-            j = text.index('"', i + 1)
-            s = text[i + 1:j]
-            k = j + 1
-            while k < n and text[k] in " \t\r\n":
-                k += 1
-            if k < n and text[k] == ":":
-                pending_key = s
-                if stack + [s] == want:
-                    return line
-            i = j
-        elif c == "{":
-            stack.append(pending_key) if pending_key is not None or depth > 0 else None
-            depth += 1
-            pending_key = None
-        elif c == "}":
-            depth -= 1
-            if stack:
-                stack.pop()
-        i += 1
-    return None
 
 
 # ------------------------------------------- symbolic execution of get_cg_coef
@@ -878,14 +858,17 @@ def roles_from_cg_coef(repo, chk):
         % (src, ", ".join("%s=%s" % (p, role_of_p[p]) for p in f.params if p in role_of_p), norm_text(fb_calls[0]), ", ".join("%s=%s" % (q, q_role[q]) for q in g.params)),
         ok,
     )
-    return g, q_role, ok
+    return g, q_role, ok, norm_text(fb_calls[0])
 
 
 def check_lookup(repo, chk, table_name, table, entries, blocks):
-    g, q_role, roles_ok = roles_from_cg_coef(repo, chk)
+    g, q_role, roles_ok, fb_text = roles_from_cg_coef(repo, chk)
     where = CG_REL + "::get_cg_coef"
     if not roles_ok:
-        raise AnalysisError("roles of get_cg_coef's parameters could not be established (see E5-args violations)") if not chk.violations else None
+        if not chk.violations:
+            raise AnalysisError("roles of get_cg_coef's parameters could not be established")
+        chk.info("get_cg_coef is not analysed further: the roles of its parameters are not established (see E5-args)")
+        return False
     param_of_role = {r: q for q, r in q_role.items()}
     env0 = {p: ast.Name(id=p, ctx=ast.Load()) for p in g.params}
     paths = exec_function(g.node, env0, {}, where)
@@ -942,9 +925,10 @@ def check_lookup(repo, chk, table_name, table, entries, blocks):
         if not ok:
             chk.violation(
                 "E5-swap", where, "%s%s" % (table_name, ktxt),
-                "on the path [%s] the table nested as (%s) is indexed by the quantities (%s): neither the arguments' own roles nor the exchange (j1,m1)<->(j2,m2)"
-                % (p.cond_text(), ",".join(ROLES), ",".join(str(r) for r in d["key_roles"])),
-                file=CG_REL, line=g.lineno,
+                "on the path [%s] the table nested as (%s) is indexed by the quantities (%s): neither the arguments' own roles nor the exchange (j1,m1)<->(j2,m2) "
+                "(roles of the parameters as handed over by cg_coef's `%s`; either these keys or that call are misordered)"
+                % (p.cond_text(), ",".join(ROLES), ",".join(str(r) for r in d["key_roles"]), fb_text),
+                file=CG_REL, line=getattr(p.ret, "lineno", g.lineno),
             )
 
     # E5-key: conversion of each key position reproduces the JSON spelling of every value stored at that level
@@ -985,28 +969,38 @@ def check_lookup(repo, chk, table_name, table, entries, blocks):
     # domain: spins of the table range (both orderings) and spin 0
     spins = sorted({Fraction(0)} | {b[0] for b in blocks} | {b[1] for b in blocks})
     sign_seen = {}  # (path idx, j1, j2, J) -> mult
-    n_pts = n_bad = n_pre = n_signbad = 0
+    n_pts = n_bad = n_pre = n_signbad = n_inadm = 0
+    lookup_viol = []
     sign_viol = {}
     for j1 in spins:
         for j2 in spins:
             in_table = (j1 == 0 or j2 == 0) or (j1, j2) in blocks or (j2, j1) in blocks
             if not in_table:
                 continue
-            J = abs(j1 - j2)
-            while J <= j1 + j2:
+            J = Fraction(0) if (j1 + j2).denominator == 1 else Fraction(1, 2)
+            while J <= j1 + j2 + 1:
                 m1 = -j1
                 while m1 <= j1:
                     m2 = -j2
                     while m2 <= j2:
                         M = m1 + m2
-                        if abs(M) <= J:
+                        adm = admissible(j1, j2, m1, m2, J, M) is None
+                        # inadmissible (J, M) are decided on the paths that consult the table only:
+                        # there the miss handler defines the value, which has to be the exact 0
+                        if adm or (j1 != 0 and j2 != 0):
                             n_pts += 1
+                            n_inadm += 0 if adm else 1
                             rv = {"j1": j1, "j2": j2, "m1": m1, "m2": m2, "J": J, "M": M}
                             val = {param_of_role[r]: pyval(v) for r, v in rv.items()}
                             hit = [d for d in infos if all(bool(ev(c, val, glob)) == t for c, t in d["path"].conds)]
                             if len(hit) != 1:
                                 raise AnalysisError("get_cg_coef: %d paths match the point %s" % (len(hit), val))
                             d = hit[0]
+                            if not adm and d["kind"] == "const":
+                                n_pts -= 1
+                                n_inadm -= 1
+                                m2 += 1
+                                continue
                             p = d["path"]
                             pt = "get_cg_coef(%s)" % ", ".join("%s=%r" % (q, val[q]) for q in g.params)
                             failed = [a for a in p.asserts if not ev(a, val, glob)]
@@ -1028,14 +1022,14 @@ def check_lookup(repo, chk, table_name, table, entries, blocks):
                             if not ok:
                                 n_bad += 1
                                 if n_bad <= MAX_VIOL:
-                                    chk.violation(
-                                        "E5-lookup", where, pt,
-                                        "path [%s] returns `%s` = %s but <%s %s %s %s|%s %s> = %.17g"
-                                        % (p.cond_text(), norm_text(p.ret), err or repr(got), j1, m1, j2, m2, J, M, exact),
-                                        file=CG_REL, line=g.lineno,
-                                    )
+                                    lookup_viol.append((
+                                        getattr(p.ret, "lineno", g.lineno), pt,
+                                        "path [%s] returns `%s` = %s but <%s %s %s %s|%s %s> = %.17g%s"
+                                        % (p.cond_text(), norm_text(p.ret), err or repr(got), j1, m1, j2, m2, J, M, exact,
+                                           "" if adm else " (selection rules: %s)" % admissible(j1, j2, m1, m2, J, M)),
+                                    ))
                             # multiplier of the looked-up value
-                            if d["kind"] in ("direct", "exchanged"):
+                            if adm and d["kind"] in ("direct", "exchanged"):
                                 tk = (d["idx"], j1, j2, J)
                                 v0 = ev(d["holed"], dict(val, **{HOLE: 0.0}), glob)
                                 v1 = ev(d["holed"], dict(val, **{HOLE: 1.0}), glob)
@@ -1064,7 +1058,7 @@ def check_lookup(repo, chk, table_name, table, entries, blocks):
                 chk.violation(
                     "E5-sign", where, "path [%s] j1=%s j2=%s J=%s" % (d["path"].cond_text(), j1, j2, J),
                     "the looked-up value is multiplied by %s in `%s`; required %s" % (mult, norm_text(d["path"].ret), req),
-                    file=CG_REL, line=g.lineno,
+                    file=CG_REL, line=getattr(d["path"].ret, "lineno", g.lineno),
                 )
     for idx, (n, nb) in sorted(per_path.items()):
         d = infos[idx]
@@ -1072,13 +1066,18 @@ def check_lookup(repo, chk, table_name, table, entries, blocks):
             "  [E5-sign] path %d [%s] %s: factor of the lookup in `%s` is %s on %d/%d spin triples"
             % (idx, d["path"].cond_text(), d["kind"], norm_text(d["path"].ret), "(-1)^(j1+j2-J)" if d["kind"] == "exchanged" else "+1", n - nb, n)
         )
+    for ln, pt, msg in lookup_viol:
+        chk.violation("E5-lookup", where, pt, msg, file=CG_REL, line=ln)
     exch = [i for i, dd in enumerate(infos) if dd["kind"] == "exchanged"]
     if not any(i in per_path for i in exch):
         # the table stores one ordering only; without an exchanged path the other ordering cannot be served
         stored_both = all((b[1], b[0]) in blocks for b in blocks)
         if not stored_both:
             chk.info("no exchanged lookup path is reachable although the table stores one ordering only (see E5-lookup)")
-    chk.out("  [E5-lookup] %d admissible points over spins %s: %d disagree, %d rejected by asserts" % (n_pts, ",".join(str(s) for s in spins), n_bad, n_pre))
+    chk.out(
+        "  [E5-lookup] %d points over spins %s (%d admissible, %d outside the selection rules on table-consulting paths): %d disagree, %d rejected by asserts"
+        % (n_pts, ",".join(str(s) for s in spins), n_pts - n_inadm, n_inadm, n_bad, n_pre)
+    )
     if n_bad > MAX_VIOL:
         chk.info("E5-lookup: %d points disagree; only the first %d are recorded" % (n_bad, MAX_VIOL))
     chk.extra["lookup_points"] = n_pts
@@ -1086,7 +1085,7 @@ def check_lookup(repo, chk, table_name, table, entries, blocks):
 
     # observations outside the decided clause
     _observations(chk, g, infos, param_of_role, glob, spins)
-    return n_pts
+    return True
 
 
 def _observations(chk, g, infos, param_of_role, glob, spins):
@@ -1184,7 +1183,7 @@ def run(repo, chk, tier):
     chk.rule("E5-swap", "each path of get_cg_coef indexes the table by its arguments in their own roles or with (j1,m1)<->(j2,m2) exchanged")
     chk.rule("E5-sign", "the looked-up value is multiplied by (-1)^(j1+j2-J) exactly on the exchanged paths and by +1 otherwise")
     chk.rule("E5-key", "the lookup's key conversion reproduces the JSON key spelling for every stored key value")
-    chk.rule("E5-lookup", "path summaries of get_cg_coef equal the exact coefficient at every admissible point of the table's spin range, both orderings and spin 0 (bounded model check)")
+    chk.rule("E5-lookup", "path summaries of get_cg_coef equal the exact coefficient at every admissible point of the table's spin range (both orderings, spin 0) and, on the paths that consult the table, also at every (J, M) outside the selection rules, where the miss handler must give 0 (bounded model check)")
     chk.trusted_base = [
         "checker's own Racah formula in fractions.Fraction",
         "json/ast parsers",
@@ -1198,10 +1197,11 @@ def run(repo, chk, tier):
     table_name, rel, line = locate_table(repo)
     chk.instance("E5-cg", "%s binds `%s` to json.load of %s (line %d)" % (CG_REL, table_name, rel, line), nontrivial=False)
     table, entries, blocks, keys_ok = check_table(repo, chk, rel)
-    check_lookup(repo, chk, table_name, table, entries, blocks)
+    done = check_lookup(repo, chk, table_name, table, entries, blocks)
     scan_literal_tables(repo, chk)
     chk.require_count("E5-cg", MIN_ENTRIES)
-    chk.require_count("E5-swap", 2)
-    chk.require_count("E5-sign", 10)
-    chk.require_count("E5-key", TABLE_DEPTH)
-    chk.require_count("E5-lookup", MIN_ENTRIES)
+    if done and not any(v["rule"] in ("E5-swap", "E5-args") for v in chk.violations):
+        chk.require_count("E5-swap", 2)
+        chk.require_count("E5-sign", 10)
+        chk.require_count("E5-key", TABLE_DEPTH)
+        chk.require_count("E5-lookup", MIN_ENTRIES)
